@@ -13,38 +13,55 @@ open Sfs Sfs.C07
 theorem npy_accept_sound (bytes : List Nat) (shape vals : List Nat) (h : readNpy bytes = .ok (shape, vals)) :
     checkedSize shape = some vals.length ∧ vals.length = size shape ∧ size shape < 2 ^ 64 ∧
       ∃ hdr w, w ∈ [1, 2, 4, 8] ∧ bytes.length = hdr + w * vals.length := by
-  sorry
+  exact readNpy_accept bytes shape vals h
 
 /-- count_mismatch_rejected (text): whatever is accepted has exactly one value per whitespace-separated token after the
     header line, and their number is the checked product of the declared shape. -/
 theorem text_accept_sound (bytes : List Nat) (shape vals : List Nat) (h : readText bytes = .ok (shape, vals)) :
     checkedSize shape = some vals.length ∧ vals.length = size shape ∧
       (splitWs ((bytesToChars bytes).dropWhile (· ≠ '\n'))).length = vals.length := by
-  sorry
+  exact readText_accept bytes shape vals h
 
 /-- Removing or inserting value tokens: a text file carrying a different number of values than its header declares is
     rejected. -/
 theorem text_token_count_rejected (shape bits bits' : List Nat) (p : Nat) (hwf : WfSpectrum shape bits)
     (hlen : bits'.length ≠ bits.length) :
     ∃ e, readSpectrum (asciiBytes (writeText shape bits' p)) = .error e := by
-  sorry
+  obtain ⟨hne, hb, hcs, _⟩ := hwf
+  simp only [readSpectrum, detect_text]
+  refine readText_written_reject shape bits' p hne hb ?_
+  rw [hcs]
+  intro h
+  exact hlen (Option.some.inj h).symm
 
 /-- Editing the shape: the same values under a header whose (checked) product differs are rejected; this includes
     declared shapes whose true product does not fit 64 bits (fix 3fdf991: no wrap-around). -/
 theorem text_shape_edit_rejected (shape shape' bits : List Nat) (p : Nat) (hwf : WfSpectrum shape bits)
     (hne : shape' ≠ []) (hb : ∀ v ∈ shape', v < 2 ^ 64) (hsz : checkedSize shape' ≠ some bits.length) :
     ∃ e, readSpectrum (asciiBytes (writeText shape' bits p)) = .error e := by
-  sorry
+  have _ := hwf      -- (not needed: any value list under a header with a different checked product is rejected)
+  simp only [readSpectrum, detect_text]
+  exact readText_written_reject shape' bits p hne hb hsz
 
 theorem overflow_is_none (shape : List Nat) (hpos : ∀ v ∈ shape, 0 < v) (h : 2 ^ 64 ≤ size shape) :
     checkedSize shape = none := by
-  sorry
+  have _ := hpos     -- (not needed)
+  exact checkedSize_none_of_le shape h
+
+/-- A zero-length axis does not mask an overflow among the other axes (fix 004eece): the declared shape
+    `<0/4294967296/4294967296>` is rejected although its product is 0. -/
+theorem overflow_behind_zero_is_none (shape : List Nat) (h : 2 ^ 64 ≤ size (shape.map (fun v => max v 1))) :
+    checkedSize shape = none :=
+  checkedSize_none_of_nz shape h
+
+example : checkedSize [0, 4294967296, 4294967296] = none ∧ checkedSize [4294967296, 4294967296, 0] = none ∧
+    checkedSize [0, 3] = some 0 ∧ checkedSize [2, 3] = some 6 := by decide
 
 /-- cli_no_output_on_reject: `view`, `fold` and `stat` read the whole input before anything is written: a rejected input
     gives exit status 1 and empty stdout. -/
 theorem cli_no_output_on_reject (compute : List Nat × List Nat → Option (List Nat)) (bytes : List Nat) (e : IoErr)
     (h : readSpectrum bytes = .error e) :
     (specCli compute bytes).code = 1 ∧ (specCli compute bytes).stdout = [] := by
-  sorry
+  simp only [specCli, h, and_self]
 
 end Sfs.C16
